@@ -5,6 +5,7 @@ import re
 from typing import (
     TYPE_CHECKING,
     Dict,
+    Iterable,
     List,
     Set,
     Tuple,
@@ -32,12 +33,30 @@ WRAPPER_TYPES: Dict[str, Type] = {
 }
 
 
-def parse_source_type_name(field_type_name: str) -> Tuple[str, str]:
+def parse_source_type_name(
+    field_type_name: str, known_packages: Iterable[str] = ()
+) -> Tuple[str, str]:
     """
     Split full source type name into package and type name.
     E.g. 'root.package.Message' -> ('root.package', 'Message')
          'root.Message.SomeEnum' -> ('root', 'Message.SomeEnum')
+
+    If the packages of the request are known, the longest one that prefixes the
+    name is the package; otherwise the split is guessed from the capitalisation.
     """
+    full_name = field_type_name.lstrip(".")
+    candidates = [
+        package
+        for package in known_packages
+        if package and full_name.startswith(f"{package}.")
+    ]
+    if candidates:
+        package = max(candidates, key=len)
+        return package, full_name[len(package) + 1 :]
+    if "" in known_packages:
+        # the type lives in a file without a package statement
+        return "", full_name
+
     package_match = re.match(r"^\.?([^A-Z]+)\.(.+)", field_type_name)
     if package_match:
         package = package_match.group(1)
@@ -56,6 +75,7 @@ def get_type_reference(
     typing_compiler: TypingCompiler,
     unwrap: bool = True,
     pydantic: bool = False,
+    known_packages: Iterable[str] = (),
 ) -> str:
     """
     Return a Python type name for a proto type reference. Adds the import if
@@ -72,7 +92,7 @@ def get_type_reference(
         elif source_type == ".google.protobuf.Timestamp":
             return "datetime"
 
-    source_package, source_type = parse_source_type_name(source_type)
+    source_package, source_type = parse_source_type_name(source_type, known_packages)
 
     current_package: List[str] = package.split(".") if package else []
     py_package: List[str] = source_package.split(".") if source_package else []
